@@ -37,6 +37,35 @@ class PriorEdge(BaseEdge):
         return self._is_valid() and len(self.vertices) == 1
 
 
+class FaultInjected(RuntimeError):
+    """What a user-defined edge raises when its sensor model fails."""
+
+
+class FaultEdge(PriorEdge):
+    """A user-defined unary edge that can be ARMED to fail: once armed with `budget = n`, the (n+1)-th linearisation requested from it raises.
+    Disarmed (budget None) it is an ordinary prior edge with numerical Jacobians.  (Fault dimension of the scenarios: GraphSLAM!OptAbort.)"""
+    is_fault = True
+    budget = None
+    calls = 0
+
+    def calc_chi2_gradient_hessian(self):
+        if self.budget is not None:
+            self.calls += 1
+            if self.calls > self.budget:
+                raise FaultInjected('linearisation %d of the armed edge' % self.calls)
+        return super().calc_chi2_gradient_hessian()
+
+
+def faulty(kind, **kw):
+    def f(seed):
+        es, vs, t = make(kind, seed, **kw)
+        rnd = random.Random(seed + 5)
+        j = 2 % len(t)
+        es.insert(len(es) // 2, FaultEdge([vs[j].id], spd(B.CDIM[B.KIND_OF[type(vs[j].pose)]], rnd, True), t[j].copy()))
+        return es, vs, t
+    return f
+
+
 class RelPoseEdge(BaseEdge):
     """User-defined relative-pose edge (same error as EdgeOdometry) relying on numerical Jacobians."""
 
@@ -337,6 +366,9 @@ TEMPLATES = {
     # file-expressible graphs whose ids are NOT list positions (negative, sparse, huge, descending)
     'se2plainids': lambda s: make('SE2', s, file_expressible=True, fixed=(2,), ids=lambda j: [-7, 1000000007, 42, -123456, 900, 5, 77, -1, 31337, 64, 2 ** 40, 13][j % 12] + 100000 * (j // 12)),
     'se3idsreg': lambda s: make('SE3', s, file_expressible=True, fixed=(1,), ids=lambda j: 500 - 9 * j),
+    'se2fault': faulty('SE2', fixed=(3,)),
+    'se3fault': faulty('SE3', n_poses=4, fixed=(2,)),
+    'r2fault': faulty('R2', n_landmarks=1, fixed=(1, 4)),
     'se2weighted': weighted('SE2'),
     'se2huge': lambda s: make('SE2', s, n_poses=150, n_landmarks=10, closures=40),
     'se2big': lambda s: make('SE2', s, n_poses=24, n_landmarks=4, closures=8),
